@@ -831,6 +831,9 @@ fn likely_chem_equation(mathml: Element) -> isize {
             "mtable" => {
                 for mrow in child.children() {
                     let mrow = as_element(mrow);
+                    if is_leaf(mrow) {
+                        continue;       // empty mtable: its only child is the placeholder for the missing content
+                    }
                     for mtd in mrow.children() {
                         let mtd = as_element(mtd);
                         let mut likely = likely_chem_formula(mtd);
@@ -1012,6 +1015,9 @@ fn likely_chem_formula(mathml: Element) -> isize {
         "mtable" => {
             for mrow in mathml.children() {
                 let mrow = as_element(mrow);
+                if is_leaf(mrow) {
+                    continue;       // empty mtable: its only child is the placeholder for the missing content
+                }
                 for mtd in mrow.children() {
                     let mtd = as_element(mtd);
                     let mut likely = likely_chem_formula(mtd);
